@@ -205,4 +205,56 @@ def validFields : Fields → List (String × JVal) → Bool
     | [] => om && isEmpty (zero t) && validFields rest []
 end
 
+/-! ### The other direction: Go values, their types, and the values that survive Marshal/Unmarshal -/
+
+def isNilV : GoVal → Bool
+  | .nilv => true
+  | _ => false
+
+/-- empty but not nil: what `omitempty` drops although it is not the zero value -/
+def lossyEmpty : GoVal → Bool
+  | .slice l => l.isEmpty
+  | .map m => m.isEmpty
+  | _ => false
+
+def sortedKeysV (m : List (String × GoVal)) : Bool :=
+  match m with
+  | [] => true
+  | [_] => true
+  | a :: b :: t => decide (a.1 < b.1) && sortedKeysV (b :: t)
+
+mutual
+/-- `v` is a value of the Go type `t`. -/
+def hasTy : GoTy → GoVal → Bool
+  | .bool, .bool _ => true
+  | .int lo hi, .int n => decide (lo ≤ n ∧ n ≤ hi)
+  | .string, .str _ => true
+  | .ptr _, .nilv => true
+  | .ptr t, .ptr v => hasTy t v
+  | .slice _, .nilv => true
+  | .slice t, .slice l => l.all (hasTy t)
+  | .map _, .nilv => true
+  | .map t, .map m => sortedKeysV m && m.all (fun kv => hasTy t kv.2)
+  | .struct fs, .struct vs => hasTyFields fs vs
+  | _, _ => false
+def hasTyFields : Fields → List GoVal → Bool
+  | .nil, [] => true
+  | .cons _ _ t rest, v :: vs => hasTy t v && hasTyFields rest vs
+  | _, _ => false
+end
+
+mutual
+/-- The values `json.Unmarshal ∘ json.Marshal` returns unchanged. -/
+def stable : GoTy → GoVal → Bool
+  | .ptr t, .ptr v => !isNilV v && stable t v
+  | .slice t, .slice l => l.all (stable t)
+  | .map t, .map m => m.all (fun kv => stable t kv.2)
+  | .struct fs, .struct vs => stableFields fs vs
+  | _, _ => true
+def stableFields : Fields → List GoVal → Bool
+  | .cons _ om t rest, v :: vs => !(om && lossyEmpty v) && stable t v && stableFields rest vs
+  | _, _ => true
+end
+
+
 end OapiVerif.GoJson
